@@ -61,10 +61,13 @@ theorem hold_refines (kind : QKind) (hinj : kind = .dusq → ∀ a b, cls a = cl
 permuted / shorter / longer / unrelated content): at every key of the Hold a non-empty content is kept — the durable
 copy wins over the preload — and an empty one becomes the preload (as a list for Durq, as an ordered set for Dusq);
 other keys are untouched.  With `hold_refines` this is `reopen_restores` for every preload, at every position. -/
-theorem spec_reopen_any_preload (kind : QKind) (keys : List Bytes) (σ : St) (pre : Bytes → List Bytes) (k : Bytes) :
+theorem spec_reopen_any_preload (kind : QKind) (keys : List Bytes) (σ : St) (pre : Bytes → Option (List Bytes)) (k : Bytes) :
     (specM cls kind keys σ (.reopen pre)).2 = .bool true ∧
     (specM cls kind keys σ (.reopen pre)).1 k =
-      if k ∈ keys then (if σ k = [] then initS kind (pre k) else σ k) else σ k := ⟨rfl, rfl⟩
+      if k ∈ keys then (match pre k with
+        | some p => if σ k = [] then initS kind p else σ k     -- a NEW object preloaded with p
+        | none => σ k) else σ k :=                                -- the SAME object re-injected: nothing changes
+  ⟨rfl, rfl⟩
 
 /-- REJECTED ⇒ IDENTITY, for every operation: whenever a method refuses its argument (`push(None)` → False; a non-RegDom
 as push / remove argument or at ANY position of an extend|update batch → HierError; `count` of a foreign object → 0) the
